@@ -227,3 +227,30 @@ Example C19_two_phase_nonvacuous :
   commands (w_reg (fst (last (wrun empty_world ex_interleaving) (empty_world, Ok)))) =
     [(hover_name, mkentry 1 false false true)].
 Proof. vm_compute. repeat split; reflexivity. Qed.
+
+(* ------------------------------------------------------------------ function objects offered again
+   Function objects are identities with mutable attributes; the same object may be offered again:
+   under its own taken name (refused, identity, whatever the function and the options), under a
+   second name (accepted: two names, one object - every name still has one handler). *)
+Definition ex_reuse : list wop :=
+  [ WDef fn1;
+    WMake (DFeature hover_name (OObj 1 true true CkValid)); WApply 0 0;     (* registered *)
+    WMake (DFeature hover_name (OObj 4 true true CkValid)); WApply 1 0;     (* same object, taken name *)
+    WMake (DFeature (Some [99]) ONone); WApply 2 0;                          (* same object, second name *)
+    WMake DThread; WApply 3 0 ].                                             (* marks the one object *)
+
+Example C19_same_function_again :
+  forallb wop_ok ex_reuse = true /\
+  map (fun p => is_error (snd p)) (wrun empty_world ex_reuse) =
+    [false; false; false; false; true; false; false; false; false] /\
+  (let r := w_reg (fst (last (wrun empty_world ex_reuse) (empty_world, Ok))) in
+   features r = [(hover_name, mkentry 1 false false true); (Some [99], mkentry 1 false false true)] /\
+   feature_options r = [(hover_name, 1)]).
+Proof. vm_compute. repeat split; reflexivity. Qed.
+
+Theorem C19_taken_name_refused_whatever_is_offered :
+  (forall r n o f, name_invalid n = false -> amem n (features r) = true ->
+                   step r (OpFeature n o f) = (r, f, Error EDuplicate)) /\
+  (forall r n f, name_invalid n = false -> amem n (commands r) = true ->
+                 step r (OpCommand n f) = (r, f, Error EDuplicate)).
+Proof. split; [exact taken_feature_refused|exact taken_command_refused]. Qed.
